@@ -38,15 +38,20 @@ ANCHORS = [
 ]
 
 
-async def run_faulted(ctx, s, engine, req, faults, sdl):
+async def run_faulted(ctx, s, engine, req, faults, sdl, arg_faults=(), arg_kind="raise"):
     st = ctx.stats
     w_ref, w_eng = X.make_worlds(s, req, faults)
+    for w in (w_ref, w_eng):
+        w.arg_faults, w.arg_fault_kind = set(arg_faults), arg_kind
     n_shared = sum(1 for f in faults.values() if f[0] == "raise_shared")
     mech = None
     if n_shared:
         from vt.world import make_shared_exception
         w_eng.shared_exc = make_shared_exception()
     case = dict(req.describe(), sdl=sdl, faults={k: list(v) for k, v in faults.items()})
+    if arg_faults:
+        case.update(argument_hook_faults=sorted(arg_faults), argument_hook_fault_kind=arg_kind)
+        st.inc("argument_stage_faults:" + arg_kind)
     try:
         ref = X.run_reference(s, req, w_ref)
     except refexec.RefBug as e:
@@ -100,12 +105,14 @@ async def run_faulted(ctx, s, engine, req, faults, sdl):
 
 
 async def run_case(ctx, rng, index):
-    so = smodel.GenOpts(p_nonnull=rng.choice([0.15, 0.3, 0.5, 0.7]), p_mutation=0.3)
+    so = smodel.GenOpts(p_nonnull=rng.choice([0.15, 0.3, 0.5, 0.7]), p_mutation=0.3, p_gate=rng.choice([0.0, 0.25]))
     s, b = await X.new_bundle(rng, so)
     try:
         for _ in range(DOCS_PER_SCHEMA):
             req = X.gen_request(rng, s, docgen.DocOpts(max_fields=rng.choice([6, 10, 14]), max_depth=3,
                                                        op_kinds=("query", "mutation")))
+            if rng.random() < 0.12:
+                req.world_opts = {"p_long": 0.08}     # size boundaries: lists of 513 / 600 / 1030 leaves
             w0, _w = X.make_worlds(s, req)
             try:
                 ref0 = X.run_reference(s, req, w0)
@@ -120,10 +127,21 @@ async def run_case(ctx, rng, index):
                     points.append((key, fault))
             ctx.stats.inc("fault_points", len(points))
             ctx.stats.inc("instances", len(w0.insts))
-            if len(w0.insts) > 40:
-                points = rng.sample(points, min(len(points), 200))
+            if len(w0.insts) > 40 or len(points) > 400:
+                far = [p for p in points if len(p[1]) > 1 and p[1][1] and p[1][1][0] >= 500]
+                points = rng.sample(points, min(len(points), 200)) + rng.sample(far, min(len(far), 24))
+                ctx.stats.inc("fault_points_in_long_lists", min(len(far), 24))
             for key, fault in points:
                 await run_faulted(ctx, s, b.engine, req, {key: fault}, b.sdl)
+            # failures at the ARGUMENT stage: the hook of a directive on an argument definition raises (a plain exception,
+            # or one derived from the library's error class), alone and together with a resolver fault
+            gated = sorted({(f.name, a.name) for t in s.objects() for f in t.fields.values() for a in f.args
+                            if any(d[0] == "vtgate" for d in a.directives)})
+            for ga in rng.sample(gated, min(len(gated), 3)):
+                for kind in ("raise", "raise_tf"):
+                    await run_faulted(ctx, s, b.engine, req, {}, b.sdl, [ga], kind)
+                if points:
+                    await run_faulted(ctx, s, b.engine, req, dict([rng.choice(points)]), b.sdl, [ga], rng.choice(["raise", "raise_tf"]))
             if len(points) >= 2:
                 pairs = [tuple(rng.sample(points, 2)) for _ in range(MAX_PAIRS)]
                 for (k1, f1), (k2, f2) in pairs:
